@@ -1,4 +1,4 @@
-import MesaModel.Model.StepCounter
+import MesaModel.Model.StepMro
 /-!
 Line-protocol driver of the step-counter model (C05).  Producer: harness/c05.py.
 
@@ -6,6 +6,10 @@ Line-protocol driver of the step-counter model (C05).  Producer: harness/c05.py.
   class <lvl> <lvl> …      a Model subclass chain, most derived class first; <lvl> = 3 bits
                            overrides/callsSuper/takesArgs (e.g. 110); `class -` = `mesa.Model` itself
                            → ok class=K
+  cdef <bases|-> <lvl>     a class with several bases (multiple inheritance): bases = comma-separated ids of classes
+                           defined by earlier `cdef` lines, 0 = `mesa.Model`, `-` = no base (a plain mixin class)
+                           → ok class=K mro=K,…   |  err Type (duplicate base, no consistent MRO)
+  mnew c stopAt            instantiate `cdef` class c (a Model subclass); bodies are labelled by class id
   new c stopAt             instantiate class c; its bodies clear `running` at the stopAt-th execution
                            → ok inst=K …
   step i a1 a2 …           model_i.step(a1, a2, …)
@@ -28,9 +32,15 @@ def parseLevel (s : String) : Option Level :=
 structure St where
   classes : List Hier
   insts : List Inst
+  table : Table := Table.init          -- `cdef` classes: their MROs …
+  lvls : List Level := [default]       -- … and how each defines `step` (entry 0 = `mesa.Model`, unused)
+  labels : List (List Nat) := []       -- per instance: the label its bodies record, by depth
 
-def fmtEntry (e : Entry) : String :=
-  s!"{e.depth}@{e.steps}" ++ (if e.args.isEmpty then "" else "/" ++ ".".intercalate (e.args.map toString))
+def fmtEntry (lab : List Nat) (e : Entry) : String :=
+  s!"{lab[e.depth]?.getD e.depth}@{e.steps}" ++ (if e.args.isEmpty then "" else "/" ++ ".".intercalate (e.args.map toString))
+
+def parseBases (s : String) : Option (List Nat) :=
+  if s = "-" then some [] else (s.splitOn ",").mapM (·.toNat?)
 
 def fmtAll (w : List Inst) : String :=
   s!"steps={",".intercalate (w.map (toString ·.steps))} running={",".intercalate (w.map fun i => if i.running then "1" else "0")}"
@@ -51,8 +61,28 @@ def stepLine (st : St) (ws : List String) : St × String :=
       match st.classes[c]? with
       | some h =>
         let w := st.insts ++ [Inst.new h k]
-        ({ st with insts := w }, s!"ok inst={st.insts.length} || {fmtAll w}")
+        ({ st with insts := w, labels := st.labels ++ [List.range h.length] }, s!"ok inst={st.insts.length} || {fmtAll w}")
       | none => bad
+    | _, _ => bad
+  | ["cdef", bs, lv] =>
+    match parseBases bs, parseLevel lv with
+    | some bases, some L =>
+      if bases.all (· < st.table.length) then
+        match st.table.define bases with
+        | some T' =>
+          ({ st with table := T', lvls := st.lvls ++ [L] },
+           s!"ok class={st.table.length} mro={",".intercalate ((T'.mro st.table.length).map toString)}")
+        | none => (st, "err Type")
+      else bad
+    | _, _ => bad
+  | ["mnew", c, k] =>
+    match c.toNat?, k.toNat? with
+    | some c, some k =>
+      if c < st.table.length && st.table.isModel c then
+        let h := st.table.hier (fun j => st.lvls[j]?.getD default) c
+        let w := st.insts ++ [Inst.new h k]
+        ({ st with insts := w, labels := st.labels ++ [st.table.labels c] }, s!"ok inst={st.insts.length} || {fmtAll w}")
+      else bad
     | _, _ => bad
   | "step" :: i :: args =>
     match i.toNat?, args.mapM (·.toInt?) with
@@ -62,7 +92,7 @@ def stepLine (st : St) (ws : List String) : St × String :=
         let r := callStep x args
         let w := apply st.insts (.step i args)
         ({ st with insts := w },
-         (if r.2.2 then "ok" else "err Type") ++ s!" log={",".intercalate (r.2.1.map fmtEntry)} || {fmtAll w}")
+         (if r.2.2 then "ok" else "err Type") ++ s!" log={",".intercalate (r.2.1.map (fmtEntry (st.labels[i]?.getD [])))} || {fmtAll w}")
       | none => bad
     | _, _ => bad
   | ["run", i] =>
@@ -73,7 +103,7 @@ def stepLine (st : St) (ws : List String) : St × String :=
         match runModel fuel x with
         | some (_, es) =>
           let w := apply st.insts (.run i fuel)
-          ({ st with insts := w }, s!"ok log={",".intercalate (es.map fmtEntry)} || {fmtAll w}")
+          ({ st with insts := w }, s!"ok log={",".intercalate (es.map (fmtEntry (st.labels[i]?.getD [])))} || {fmtAll w}")
         | none => (st, "err Fuel")
       | none => bad
     | none => bad
